@@ -186,15 +186,22 @@ def check_closed_form(sc):
     return (dev, "<= 0.01 K") if not dev <= 0.01 else None
 
 
-def check_bare(sc):
+def check_bare(sc, via_argument=False):
     """a bare substrate under a transparent volume: e*Tsub + r*Tsky"""
     from smrt import make_model, sensor_list
     from smrt.inputs.make_medium import make_transparent_volume
     d = json.loads(json.dumps(sc)); d["thickness"] = [1.0]; d["density"] = [300.]; d["temperature"] = [250.]
+    if via_argument and d.get("atmosphere") is None:
+        d["atmosphere"] = dict(tb_down=30.0, tb_up=0.0, trans=1.0)
     sp0, atm = scenes.build(d)
-    sp = make_transparent_volume(substrate=sp0.substrate)
+    # the two documented ways of putting a sky over a layerless medium: the atmosphere= argument, or atmosphere + medium
+    if atm is not None and via_argument:
+        med = make_transparent_volume(substrate=sp0.substrate, atmosphere=atm)
+    else:
+        sp = make_transparent_volume(substrate=sp0.substrate)
+        med = (atm + sp) if atm is not None else sp
+    sp = med
     m = make_model("nonscattering", "dort", rtsolver_options=dict(n_max_stream=sc["nmax"]))
-    med = (atm + sp) if atm is not None else sp
     first = m.run(sensor_list.passive(sc["frequency"], [10.]), med)
     ang = np.random.default_rng(len(stream_angles(first))).permutation(stream_angles(first))
     res = m.run(sensor_list.passive(sc["frequency"], list(ang)), med)
@@ -234,15 +241,16 @@ def oracle(ctx, hints, effort):
                 findings.setdefault(key, Finding(key, f"Tb differs from the incoherent closed form by {r[0]:.3g} K", {"kind": "stack", "scene": sc}, r[0], r[1]))
             if sc.get("substrate") and it % 3 == 0:
                 evals += 1
-                r = check_bare(sc)
-                if r:
-                    findings.setdefault("bare-substrate", Finding("bare-substrate", f"bare substrate: Tb differs from e*Tsub + r*Tsky by {r[0]:.3g} K",
-                                                                  {"kind": "bare", "scene": sc}, r[0], r[1]))
+                for via in (False, True):
+                    r = check_bare(sc, via)
+                    if r:
+                        findings.setdefault("bare-substrate", Finding("bare-substrate", f"bare substrate: Tb differs from e*Tsub + r*Tsky by {r[0]:.3g} K",
+                                                                      {"kind": "bare", "scene": sc, "via_argument": via}, r[0], r[1]))
         except AssertionError:
             continue
     return list(findings.values()), evals
 
 
 def replay(inp, rp=None):
-    r = check_closed_form(inp["scene"]) if inp["kind"] == "stack" else check_bare(inp["scene"])
+    r = check_closed_form(inp["scene"]) if inp["kind"] == "stack" else check_bare(inp["scene"], inp.get("via_argument", False))
     return Finding("?", "closed form", inp, r[0], r[1]) if r else None
